@@ -536,7 +536,9 @@ func c12Body(w *World, desc *c12Desc) *kernel.Violation {
 				op.Kind = "query"
 				return op
 			case 6:
-				op.Kind, op.Other = "pool-create", []string{"p2", "p3"}[wl.Intn(2)]
+				// (the main pool's own name too: it is free again once
+				// somebody has dropped or renamed that pool)
+				op.Kind, op.Other = "pool-create", []string{"p2", "p3", r.PM.Spec.Name}[wl.Intn(3)]
 				return op
 			case 7:
 				op.Kind, op.Other = "pool-rename", []string{"p2", "p3", "p4"}[wl.Intn(3)]
